@@ -83,15 +83,17 @@ class Environment:
         temperature: float | None = None,
         wavelength: float | WavelengthHandling | None = None,
     ):
-        if isinstance(temperature, int | float) and not (0.0 < temperature <= 1000.0):
+        # Note: the converted value is checked, a YAML scalar such as '-1e2' is a text
+        temperature_value: float | None = (
+            float(temperature) if temperature is not None else None
+        )
+        if temperature_value is not None and not (0.0 < temperature_value <= 1000.0):
             raise ValueError("'temperature' must be between 0.0 and 1000.0.")
 
         if isinstance(wavelength, int | float) and not (wavelength > 0.0):
             raise ValueError("'wavelength' must be strictly positive.")
 
-        self._temperature: float | None = (
-            float(temperature) if temperature is not None else None
-        )
+        self._temperature: float | None = temperature_value
 
         self._wavelength: float | WavelengthHandling | None = (
             float(wavelength) if isinstance(wavelength, int | float) else wavelength
